@@ -34,7 +34,7 @@ NOT_APPLICABLE = {
     'C18': 'pure string functions (quote/evaluate/type)',
     'C19': 'pure parse/format pair on triple conjunctions',
 }
-PENDING = {k: 'check under construction in this round (will be claimed; see DESIGN.md section 4)' for k in ['C15','C17']}
+PENDING = {k: 'check under construction in this round (will be claimed; see DESIGN.md section 4)' for k in ['C17']}
 
 
 def main():
